@@ -35,8 +35,8 @@ Proof.
   induction l as [|b l IH] using rev_ind.
   - cbn. lia.
   - rewrite bits_val_app, app_length. cbn [length]. replace (length l + 1)%nat with (S (length l)) by lia.
-    rewrite Nat2N.inj_succ, N.pow_succ_r'.
-    change (2 ^ N.of_nat 1) with 2. assert (bits_val [b] < 2) by (destruct b; cbn; lia).
+    change (2 ^ N.of_nat 1) with 2. rewrite Nat2N.inj_succ, N.pow_succ_r'.
+    assert (bits_val [b] < 2) by (destruct b; cbn; lia).
     set (p := 2 ^ N.of_nat (length l)) in *. lia.
 Qed.
 
@@ -104,4 +104,484 @@ Proof.
   rewrite (bits_val_slice [x0; x1; x2; x3; x4; x5; x6; x7; x8; x9; x10; x11; x12; x13; x14; x15; x16; x17]
              [x18; x19; x20; x21; x22; x23] []).
   cbn [app length]. rewrite N.div_1_r. reflexivity.
+Qed.
+
+(* ---------------- spec: one 3-byte group at a time ---------------- *)
+Lemma zero_pad_app24 (X R : list bool) : length X = 24%nat -> zero_pad 6 (X ++ R) = X ++ zero_pad 6 R.
+Proof.
+  intros H. unfold zero_pad. rewrite app_length, H, <- app_assoc.
+  replace ((24 + length R) mod 6)%nat with (length R mod 6)%nat; [reflexivity|].
+  replace (24 + length R)%nat with (length R + 4 * 6)%nat by lia. rewrite Nat.mod_add by lia. reflexivity.
+Qed.
+
+Lemma bitstring_cons b r : bitstring (b :: r) = byte_bits b ++ bitstring r.
+Proof. reflexivity. Qed.
+
+Lemma b64_digits_group a b c r :
+  a < 256 -> b < 256 -> c < 256 ->
+  b64_digits (a :: b :: c :: r) = group_digits (a * 65536 + b * 256 + c) ++ b64_digits r.
+Proof.
+  intros Ha Hb Hc. unfold b64_digits. rewrite !bitstring_cons.
+  pose proof (bits_val_byte a Ha) as Va. pose proof (bits_val_byte b Hb) as Vb.
+  pose proof (bits_val_byte c Hc) as Vc.
+  destruct (byte_bits_shape a) as (a7 & a6 & a5 & a4 & a3 & a2 & a1 & a0 & Ea).
+  destruct (byte_bits_shape b) as (b7 & b6 & b5 & b4 & b3 & b2 & b1 & b0 & Eb).
+  destruct (byte_bits_shape c) as (c7 & c6 & c5 & c4 & c3 & c2 & c1 & c0 & Ec).
+  rewrite Ea in *. rewrite Eb in *. rewrite Ec in *.
+  rewrite !app_assoc. rewrite zero_pad_app24 by reflexivity.
+  cbn [app chunk6 map].
+  pose proof (sextets24 a7 a6 a5 a4 a3 a2 a1 a0 b7 b6 b5 b4 b3 b2 b1 b0 c7 c6 c5 c4 c3 c2 c1 c0) as S.
+  change [a7; a6; a5; a4; a3; a2; a1; a0; b7; b6; b5; b4; b3; b2; b1; b0; c7; c6; c5; c4; c3; c2; c1; c0]
+    with ([a7; a6; a5; a4; a3; a2; a1; a0] ++ [b7; b6; b5; b4; b3; b2; b1; b0] ++ [c7; c6; c5; c4; c3; c2; c1; c0]) in S.
+  rewrite !bits_val_app, Va, Vb, Vc in S. cbn [length app] in S.
+  change (2 ^ N.of_nat 16) with 65536 in S. change (2 ^ N.of_nat 8) with 256 in S.
+  replace (a * 65536 + (b * 256 + c)) with (a * 65536 + b * 256 + c) in S by lia.
+  rewrite <- S. reflexivity.
+Qed.
+
+Lemma b64_digits_1 a : a < 256 ->
+  b64_digits [a] = firstn 2 (group_digits (a * 65536)).
+Proof.
+  intros Ha. unfold b64_digits. rewrite !bitstring_cons.
+  pose proof (bits_val_byte a Ha) as Va.
+  destruct (byte_bits_shape a) as (a7 & a6 & a5 & a4 & a3 & a2 & a1 & a0 & Ea).
+  rewrite Ea in *. cbn [bitstring flat_map app].
+  change (zero_pad 6 [a7; a6; a5; a4; a3; a2; a1; a0])
+    with [a7; a6; a5; a4; a3; a2; a1; a0; false; false; false; false].
+  cbn [chunk6 map].
+  pose proof (sextets24 a7 a6 a5 a4 a3 a2 a1 a0 false false false false false false false false
+                        false false false false false false false false) as S.
+  change [a7; a6; a5; a4; a3; a2; a1; a0; false; false; false; false; false; false; false; false;
+          false; false; false; false; false; false; false; false]
+    with ([a7; a6; a5; a4; a3; a2; a1; a0] ++ repeat false 16) in S.
+  rewrite bits_val_app, Va in S. change (bits_val (repeat false 16)) with 0 in S.
+  change (2 ^ N.of_nat (length (repeat false 16))) with 65536 in S. rewrite N.add_0_r in S.
+  rewrite <- S. reflexivity.
+Qed.
+
+Lemma b64_digits_2 a b : a < 256 -> b < 256 ->
+  b64_digits [a; b] = firstn 3 (group_digits (a * 65536 + b * 256)).
+Proof.
+  intros Ha Hb. unfold b64_digits. rewrite !bitstring_cons.
+  pose proof (bits_val_byte a Ha) as Va. pose proof (bits_val_byte b Hb) as Vb.
+  destruct (byte_bits_shape a) as (a7 & a6 & a5 & a4 & a3 & a2 & a1 & a0 & Ea).
+  destruct (byte_bits_shape b) as (b7 & b6 & b5 & b4 & b3 & b2 & b1 & b0 & Eb).
+  rewrite Ea in *. rewrite Eb in *. cbn [bitstring flat_map app].
+  change (zero_pad 6 [a7; a6; a5; a4; a3; a2; a1; a0; b7; b6; b5; b4; b3; b2; b1; b0])
+    with [a7; a6; a5; a4; a3; a2; a1; a0; b7; b6; b5; b4; b3; b2; b1; b0; false; false].
+  cbn [chunk6 map].
+  pose proof (sextets24 a7 a6 a5 a4 a3 a2 a1 a0 b7 b6 b5 b4 b3 b2 b1 b0
+                        false false false false false false false false) as S.
+  change [a7; a6; a5; a4; a3; a2; a1; a0; b7; b6; b5; b4; b3; b2; b1; b0;
+          false; false; false; false; false; false; false; false]
+    with ([a7; a6; a5; a4; a3; a2; a1; a0] ++ [b7; b6; b5; b4; b3; b2; b1; b0] ++ repeat false 8) in S.
+  rewrite !bits_val_app, Va, Vb in S. change (bits_val (repeat false 8)) with 0 in S.
+  cbn [length app repeat] in S.
+  change (2 ^ N.of_nat 16) with 65536 in S. change (2 ^ N.of_nat 8) with 256 in S.
+  replace (a * 65536 + (b * 256 + 0)) with (a * 65536 + b * 256) in S by lia.
+  rewrite <- S. reflexivity.
+Qed.
+
+Lemma b64_spec_group a b c r :
+  a < 256 -> b < 256 -> c < 256 ->
+  b64_spec (a :: b :: c :: r) = map b64_char (group_digits (a * 65536 + b * 256 + c)) ++ b64_spec r.
+Proof.
+  intros Ha Hb Hc. unfold b64_spec. rewrite b64_digits_group by assumption.
+  rewrite map_app, app_length, <- app_assoc. f_equal. f_equal.
+  change (length (map b64_char (group_digits (a * 65536 + b * 256 + c)))) with 4%nat.
+  replace (4 + length (map b64_char (b64_digits r)))%nat
+    with (length (map b64_char (b64_digits r)) + 1 * 4)%nat by lia.
+  rewrite Nat.mod_add by lia. reflexivity.
+Qed.
+
+Lemma b64_spec_1 a : a < 256 ->
+  b64_spec [a] = map b64_char (firstn 2 (group_digits (a * 65536))) ++ [pad_char; pad_char].
+Proof. intros Ha. unfold b64_spec. rewrite b64_digits_1 by assumption. reflexivity. Qed.
+
+Lemma b64_spec_2 a b : a < 256 -> b < 256 ->
+  b64_spec [a; b] = map b64_char (firstn 3 (group_digits (a * 65536 + b * 256))) ++ [pad_char].
+Proof. intros Ha Hb. unfold b64_spec. rewrite b64_digits_2 by assumption. reflexivity. Qed.
+
+(* ---------------- encoder model ---------------- *)
+Lemma tbl_digit d : d < 64 -> rd tbl (N.to_nat d) = Ok (b64_char d).
+Proof.
+  intros H.
+  assert (forallb (fun d => match rd tbl (N.to_nat d) with Ok c => c =? b64_char d | _ => false end)
+                  (N_range 64) = true) as S by (vm_compute; reflexivity).
+  pose proof (sweep_N _ 64 S d H) as P. cbv beta in P.
+  destruct (rd tbl (N.to_nat d)); try discriminate. apply N.eqb_eq in P. subst. reflexivity.
+Qed.
+
+Definition sh6 (t : N) : N := u32 (N.shiftl t 6).
+
+Lemma digit_sel t : N.land (N.shiftr t 18) 63 = (t / 2 ^ 18) mod 64.
+Proof. rewrite N.shiftr_div_pow2. change 63 with (N.ones 6). rewrite N.land_ones. reflexivity. Qed.
+
+Lemma sh6_eq t : sh6 t = (t * 64) mod 2 ^ 32.
+Proof. unfold sh6, u32. rewrite N.shiftl_mul_pow2. reflexivity. Qed.
+
+Lemma group_digits_model t : t < 2 ^ 24 ->
+  [N.land (N.shiftr t 18) 63; N.land (N.shiftr (sh6 t) 18) 63;
+   N.land (N.shiftr (sh6 (sh6 t)) 18) 63; N.land (N.shiftr (sh6 (sh6 (sh6 t))) 18) 63] = group_digits t.
+Proof.
+  intros H. rewrite !digit_sel, !sh6_eq. unfold group_digits.
+  change (2 ^ 24) with 16777216 in H. change (2 ^ 32) with 4294967296. change (2 ^ 18) with 262144.
+  change (2 ^ 12) with 4096. change (2 ^ 6) with 64.
+  repeat (apply (f_equal2 (@cons N)); [lia|]). reflexivity.
+Qed.
+
+Lemma group_digit_lt t k d : nth_error (group_digits t) k = Some d -> d < 64.
+Proof.
+  unfold group_digits. intros H.
+  destruct k as [|[|[|[|k]]]]; cbn [nth_error] in H; try (destruct k; discriminate);
+    inversion H; subst; apply N.mod_lt; lia.
+Qed.
+
+Lemma enc_write_step tb done r rest len j n t c :
+  (if (j <=? len)%nat then rd tb (N.to_nat (N.land (N.shiftr t 18) 63)) else Ok 61) = Ok c ->
+  enc_write tb (done ++ r :: rest) (length done) len j (S n) t =
+  enc_write tb ((done ++ [c]) ++ rest) (length (done ++ [c])) len (S j) n (sh6 t).
+Proof.
+  intros E. cbn [enc_write]. rewrite E. cbn [bind]. rewrite wr_mid. cbn [bind].
+  rewrite app_length. cbn [length]. rewrite <- app_assoc. cbn [app].
+  replace (length done + 1)%nat with (S (length done)) by lia. reflexivity.
+Qed.
+
+Lemma enc_read_step_rd pre a suf len j n t :
+  (j <? len)%nat = true ->
+  enc_read (pre ++ a :: suf) (length pre) len j (S n) t =
+  enc_read ((pre ++ [a]) ++ suf) (length (pre ++ [a])) len (S j) n (u32 (u32 (N.shiftl t 8) + a)).
+Proof.
+  intros E. cbn [enc_read]. rewrite E. rewrite rd_mid. cbn [bind].
+  rewrite app_length. cbn [length]. rewrite <- app_assoc. cbn [app].
+  replace (length pre + 1)%nat with (S (length pre)) by lia. reflexivity.
+Qed.
+
+Lemma enc_read_step_skip inp ip len j n t :
+  (j <? len)%nat = false ->
+  enc_read inp ip len j (S n) t = enc_read inp ip len (S j) n (u32 (N.shiftl t 8)).
+Proof. intros E. cbn [enc_read]. rewrite E. reflexivity. Qed.
+
+(* the value assembled by the reading loop *)
+Lemma read_val3 a b c : a < 256 -> b < 256 -> c < 256 ->
+  u32 (u32 (N.shiftl (u32 (u32 (N.shiftl (u32 (u32 (N.shiftl 0 8) + a)) 8) + b)) 8) + c) =
+  a * 65536 + b * 256 + c.
+Proof.
+  intros. unfold u32. rewrite !N.shiftl_mul_pow2. change (2 ^ 8) with 256. change (2 ^ 32) with 4294967296. lia.
+Qed.
+Lemma read_val2 a b : a < 256 -> b < 256 ->
+  u32 (N.shiftl (u32 (u32 (N.shiftl (u32 (u32 (N.shiftl 0 8) + a)) 8) + b)) 8) = a * 65536 + b * 256.
+Proof.
+  intros. unfold u32. rewrite !N.shiftl_mul_pow2. change (2 ^ 8) with 256. change (2 ^ 32) with 4294967296. lia.
+Qed.
+Lemma read_val1 a : a < 256 ->
+  u32 (N.shiftl (u32 (N.shiftl (u32 (u32 (N.shiftl 0 8) + a)) 8)) 8) = a * 65536.
+Proof.
+  intros. unfold u32. rewrite !N.shiftl_mul_pow2. change (2 ^ 8) with 256. change (2 ^ 32) with 4294967296. lia.
+Qed.
+
+Lemma b64len_3 n : b64len (S (S (S n))) = (4 + b64len n)%nat.
+Proof.
+  unfold b64len. replace (S (S (S n)) + 2)%nat with (n + 2 + 1 * 3)%nat by lia.
+  rewrite Nat.div_add by lia. lia.
+Qed.
+
+Lemma list_ind3 {A} (P : list A -> Prop) :
+  P [] -> (forall a, P [a]) -> (forall a b, P [a; b]) ->
+  (forall a b c r, P r -> P (a :: b :: c :: r)) -> forall l, P l.
+Proof.
+  intros H0 H1 H2 H3 l.
+  assert (forall n l, (length l <= n)%nat -> P l) as G.
+  { induction n as [|n IH]; intros l' Hl.
+    - destruct l'; [exact H0 | cbn in Hl; lia].
+    - destruct l' as [|a [|b [|c r]]]; auto. apply H3. apply IH. cbn [length] in Hl. lia. }
+  apply (G (length l)). lia.
+Qed.
+
+(* four characters written from a quantum t: the first k are digits, the rest '=' *)
+Lemma enc_write_4 done r0 r1 r2 r3 rest len t :
+  t < 2 ^ 24 -> (1 <= len)%nat ->
+  enc_write tbl (done ++ r0 :: r1 :: r2 :: r3 :: rest) (length done) len 0 4 t =
+  Ok (done ++ (map b64_char (firstn (S len) (group_digits t)) ++ repeat pad_char (3 - len)) ++ rest,
+      (length done + 4)%nat).
+Proof.
+  intros Ht Hl. pose proof (group_digits_model t Ht) as G.
+  assert (forall k d, nth_error (group_digits t) k = Some d -> rd tbl (N.to_nat d) = Ok (b64_char d)) as R.
+  { intros k d Hk. apply tbl_digit. eapply group_digit_lt. exact Hk. }
+  rewrite <- G in R.
+  pose proof (R 0%nat _ eq_refl) as R0. pose proof (R 1%nat _ eq_refl) as R1.
+  pose proof (R 2%nat _ eq_refl) as R2. pose proof (R 3%nat _ eq_refl) as R3.
+  rewrite <- G.
+  destruct len as [|[|[|len]]]; [lia | | |].
+  - (* len = 1: two digits, two '=' *)
+    rewrite (enc_write_step tbl done r0 _ 1 0 3 t _ R0).
+    rewrite (enc_write_step tbl _ r1 _ 1 1 2 _ _ R1).
+    rewrite (enc_write_step tbl _ r2 _ 1 2 1 _ 61 eq_refl).
+    rewrite (enc_write_step tbl _ r3 _ 1 3 0 _ 61 eq_refl).
+    cbn [enc_write]. rewrite !app_length. cbn [length firstn map repeat Nat.sub app].
+    rewrite <- !app_assoc. cbn [app]. f_equal. f_equal. lia.
+  - rewrite (enc_write_step tbl done r0 _ 2 0 3 t _ R0).
+    rewrite (enc_write_step tbl _ r1 _ 2 1 2 _ _ R1).
+    rewrite (enc_write_step tbl _ r2 _ 2 2 1 _ _ R2).
+    rewrite (enc_write_step tbl _ r3 _ 2 3 0 _ 61 eq_refl).
+    cbn [enc_write]. rewrite !app_length. cbn [length firstn map repeat Nat.sub app].
+    rewrite <- !app_assoc. cbn [app]. f_equal. f_equal. lia.
+  - rewrite (enc_write_step tbl done r0 _ (S (S (S len))) 0 3 t _ R0).
+    rewrite (enc_write_step tbl _ r1 _ (S (S (S len))) 1 2 _ _ R1).
+    rewrite (enc_write_step tbl _ r2 _ (S (S (S len))) 2 1 _ _ R2).
+    rewrite (enc_write_step tbl _ r3 _ (S (S (S len))) 3 0 _ _ R3).
+    cbn [enc_write]. rewrite !app_length. cbn [length firstn map repeat Nat.sub app].
+    rewrite firstn_nil. cbn [map app].
+    rewrite <- !app_assoc. cbn [app]. f_equal. f_equal. lia.
+Qed.
+
+Lemma enc_loop_zero tb fuel inp ip done r op :
+  op = length done -> enc_loop tb fuel inp ip (done ++ [r]) op 0 = Ok (done ++ [0]).
+Proof. intros ->. destruct fuel; cbn [enc_loop Nat.eqb]; apply wr_mid. Qed.
+
+Lemma enc_loop_ok : forall suf pre done rest fuel,
+  bytes_ok suf -> length rest = S (b64len (length suf)) -> (length suf <= fuel)%nat ->
+  enc_loop tbl fuel (pre ++ suf) (length pre) (done ++ rest) (length done) (length suf) =
+  Ok (done ++ b64_spec suf ++ [0]).
+Proof.
+  intros suf. induction suf as [|a|a b|a b c r IH] using list_ind3; intros pre done rest fuel Hb Hr Hf.
+  - (* end of input: the terminator *)
+    destruct rest as [|r0 [|? ?]]; try discriminate Hr. apply enc_loop_zero. reflexivity.
+  - (* one byte left *)
+    inversion Hb as [|? ? Ha _]; subst. unfold is_byte in Ha.
+    destruct fuel as [|f]; [cbn [length] in Hf; lia|].
+    destruct rest as [|r0 [|r1 [|r2 [|r3 [|r4 [|? ?]]]]]]; try discriminate Hr.
+    cbn [enc_loop length Nat.eqb].
+    rewrite enc_read_step_rd by reflexivity.
+    rewrite enc_read_step_skip by reflexivity. rewrite enc_read_step_skip by reflexivity.
+    cbn [enc_read bind]. rewrite read_val1 by exact Ha.
+    rewrite enc_write_4 by (try lia; change (2 ^ 24) with 16777216; lia). cbn [bind].
+    cbn [Nat.ltb Nat.leb]. rewrite b64_spec_1 by exact Ha.
+    unfold group_digits. cbn [firstn map repeat Nat.sub app].
+    match goal with |- enc_loop _ _ _ _ (done ++ ?c0 :: ?c1 :: ?c2 :: ?c3 :: [r4]) _ _ = _ =>
+      change (done ++ c0 :: c1 :: c2 :: c3 :: [r4]) with (done ++ [c0; c1; c2; c3] ++ [r4]);
+      rewrite (app_assoc done [c0; c1; c2; c3] [r4])
+    end.
+    rewrite enc_loop_zero by (rewrite app_length; reflexivity).
+    rewrite <- app_assoc. reflexivity.
+  - (* two bytes left *)
+    inversion Hb as [|? ? Ha Hb']; subst. inversion Hb' as [|? ? Hb2 _]; subst. unfold is_byte in Ha, Hb2.
+    destruct fuel as [|f]; [cbn [length] in Hf; lia|].
+    destruct rest as [|r0 [|r1 [|r2 [|r3 [|r4 [|? ?]]]]]]; try discriminate Hr.
+    cbn [enc_loop length Nat.eqb].
+    rewrite enc_read_step_rd by reflexivity. rewrite enc_read_step_rd by reflexivity.
+    rewrite enc_read_step_skip by reflexivity.
+    cbn [enc_read bind]. rewrite read_val2 by assumption.
+    rewrite enc_write_4 by (try lia; change (2 ^ 24) with 16777216; lia). cbn [bind].
+    cbn [Nat.ltb Nat.leb]. rewrite b64_spec_2 by assumption.
+    unfold group_digits. cbn [firstn map repeat Nat.sub app].
+    match goal with |- enc_loop _ _ _ _ (done ++ ?c0 :: ?c1 :: ?c2 :: ?c3 :: [r4]) _ _ = _ =>
+      change (done ++ c0 :: c1 :: c2 :: c3 :: [r4]) with (done ++ [c0; c1; c2; c3] ++ [r4]);
+      rewrite (app_assoc done [c0; c1; c2; c3] [r4])
+    end.
+    rewrite enc_loop_zero by (rewrite app_length; reflexivity).
+    rewrite <- app_assoc. reflexivity.
+  - (* a full group *)
+    inversion Hb as [|? ? Ha Hb1]; subst. inversion Hb1 as [|? ? Hb2 Hb3]; subst.
+    inversion Hb3 as [|? ? Hc Hr']; subst. unfold is_byte in Ha, Hb2, Hc.
+    destruct fuel as [|f]; [cbn [length] in Hf; lia|].
+    cbn [length] in Hr. rewrite b64len_3 in Hr.
+    destruct rest as [|r0 [|r1 [|r2 [|r3 rest']]]]; try (cbn [length] in Hr; lia).
+    cbn [enc_loop length Nat.eqb].
+    rewrite enc_read_step_rd by reflexivity. rewrite enc_read_step_rd by reflexivity.
+    rewrite enc_read_step_rd by reflexivity.
+    cbn [enc_read bind]. rewrite read_val3 by assumption.
+    rewrite enc_write_4 by (try lia; change (2 ^ 24) with 16777216; lia). cbn [bind].
+    rewrite b64_spec_group by assumption.
+    replace (if (S (S (S (length r))) <? 3)%nat then 0%nat else (S (S (S (length r))) - 3)%nat)
+      with (length r) by (cbn [Nat.ltb Nat.leb Nat.sub]; lia).
+    rewrite firstn_all2 by (cbn [group_digits length]; lia).
+    cbn [Nat.sub repeat]. rewrite app_nil_r.
+    rewrite (app_assoc done).
+    replace (length done + 4)%nat
+      with (length (done ++ map b64_char (group_digits (a * 65536 + b * 256 + c))))
+      by (rewrite app_length; reflexivity).
+    replace (pre ++ a :: b :: c :: r) with ((((pre ++ [a]) ++ [b]) ++ [c]) ++ r)
+      by (rewrite <- !app_assoc; reflexivity).
+    rewrite IH; [ rewrite <- !app_assoc; reflexivity | exact Hr' | cbn [length] in Hr; lia
+                  | cbn [length] in Hf; lia ].
+Qed.
+
+(* M1: the encoder writes the RFC 4648 encoding and a NUL into an output object of exactly
+   b64len(len) + 1 bytes, whatever it held before *)
+Theorem b64encode_eq_rfc4648 bs out :
+  bytes_ok bs -> length out = S (b64len (length bs)) ->
+  b64encode_m b64chars bs out (length bs) = Ok (b64_spec bs ++ [0]).
+Proof.
+  intros Hb Ho. rewrite repo_b64chars_eq_rfc. fold tbl. unfold b64encode_m.
+  apply (enc_loop_ok bs [] [] out (S (length bs)) Hb Ho). lia.
+Qed.
+
+(* ================= decoder ================= *)
+(* ---- character facts, by a sweep over all byte values ---- *)
+Definition digit_of_char (c : N) : N := match b64_index c with Some d => d | None => 0 end.
+
+Definition dec_char_ok (c : N) : bool :=
+  match strchr_tbl tbl c, b64_index c with
+  | Some p, Some d => negb (c =? 0) && negb (c =? 61) && (N.land (N.of_nat p) 63 =? d) && (d <? 64)
+  | Some p, None => ((c =? 61) && (N.land (N.of_nat p) 63 =? 0)) || (c =? 0)
+  | None, None => negb (c =? 0) && negb (c =? 61)
+  | None, Some _ => false
+  end.
+
+Lemma dec_char_sweep : forallb dec_char_ok (N_range 256) = true.
+Proof. vm_compute. reflexivity. Qed.
+
+Lemma char_valid c : c < 256 -> is_b64char c = true ->
+  c <> 0 /\ c <> 61 /\ digit_of_char c < 64 /\
+  exists p, strchr_tbl tbl c = Some p /\ N.land (N.of_nat p) 63 = digit_of_char c.
+Proof.
+  intros Hc Hv. pose proof (sweep_byte _ dec_char_sweep c Hc) as S.
+  unfold dec_char_ok in S. unfold is_b64char in Hv. unfold digit_of_char.
+  destruct (b64_index c) as [d|]; [|discriminate].
+  destruct (strchr_tbl tbl c) as [p|]; [|discriminate].
+  apply andb_true_iff in S. destruct S as [S S4]. apply andb_true_iff in S. destruct S as [S S3].
+  apply andb_true_iff in S. destruct S as [S1 S2].
+  apply negb_true_iff, N.eqb_neq in S1. apply negb_true_iff, N.eqb_neq in S2.
+  apply N.eqb_eq in S3. apply N.ltb_lt in S4. repeat split; auto. exists p. split; auto.
+Qed.
+
+Lemma char_pad : is_b64char 61 = false /\ digit_of_char 61 = 0 /\
+  exists p, strchr_tbl tbl 61 = Some p /\ N.land (N.of_nat p) 63 = 0.
+Proof. split; [reflexivity|]. split; [reflexivity|]. vm_compute. eexists. split; reflexivity. Qed.
+
+Lemma char_invalid c : c < 256 -> is_b64char c = false -> c <> 61 -> c = 0 \/ strchr_tbl tbl c = None.
+Proof.
+  intros Hc Hv Hp. pose proof (sweep_byte _ dec_char_sweep c Hc) as S.
+  unfold dec_char_ok in S. unfold is_b64char in Hv.
+  destruct (b64_index c) as [d|]; [discriminate|].
+  destruct (strchr_tbl tbl c) as [p|]; [|right; reflexivity].
+  apply orb_true_iff in S. destruct S as [S|S].
+  - apply andb_true_iff in S. destruct S as [S _]. apply N.eqb_eq in S. contradiction.
+  - left. apply N.eqb_eq in S. exact S.
+Qed.
+
+Lemma char_bits_valid c : c < 256 -> is_b64char c = true -> char_bits c = digit_bits (digit_of_char c).
+Proof. intros _ Hv. unfold char_bits, digit_of_char, is_b64char in *. destruct (b64_index c); [reflexivity|discriminate]. Qed.
+
+Lemma char_bits_pad : char_bits 61 = [].
+Proof. reflexivity. Qed.
+
+(* ---- the validity scan ---- *)
+Fixpoint scan_spec (s : list N) (dead : N) : option N :=
+  match s with
+  | [] => Some dead
+  | c :: r =>
+    if c =? 61 then scan_spec r (dead + 1)
+    else if is_b64char c && (dead =? 0) then scan_spec r dead
+    else None
+  end.
+
+Lemma scan_model : forall suf pre dead,
+  bytes_ok suf -> dead + N.of_nat (length suf) < 2 ^ 64 ->
+  dec_scan tbl (pre ++ suf) (length pre) (length suf) dead = Ok (scan_spec suf dead).
+Proof.
+  induction suf as [|c r IH]; intros pre dead Hb Hd; [reflexivity|].
+  inversion Hb as [|? ? Hc Hr]; subst. unfold is_byte in Hc.
+  cbn [length dec_scan scan_spec]. rewrite rd_mid. cbn [bind].
+  cbn [length] in Hd. rewrite Nat2N.inj_succ in Hd.
+  assert (forall d, d + N.of_nat (length r) < 2 ^ 64 ->
+            dec_scan tbl (pre ++ c :: r) (S (length pre)) (length r) d = Ok (scan_spec r d)) as Next.
+  { intros d Hd'. specialize (IH (pre ++ [c]) d Hr Hd'). rewrite app_length in IH. cbn [length] in IH.
+    rewrite <- app_assoc in IH. cbn [app] in IH. replace (S (length pre)) with (length pre + 1)%nat by lia.
+    exact IH. }
+  destruct (N.eqb_spec c 61) as [->|Hne].
+  - (* '=' *)
+    destruct char_pad as (_ & _ & p & Ep & _). rewrite Ep. cbn [N.eqb orb negb andb Pos.eqb].
+    unfold u64. rewrite N.mod_small by lia.
+    replace (0 <? dead + 1) with true by (symmetry; apply N.ltb_lt; lia). cbn [andb].
+    apply Next. lia.
+  - destruct (is_b64char c) eqn:Ev.
+    + destruct (char_valid c Hc Ev) as (Hz & _ & _ & p & Ep & _). rewrite Ep.
+      destruct (N.eqb_spec c 0) as [?|_]; [contradiction|]. cbn [orb negb andb].
+      destruct (N.eqb_spec dead 0) as [->|Hd0].
+      * cbn [N.ltb N.compare]. apply Next. lia.
+      * replace (0 <? dead) with true by (symmetry; apply N.ltb_lt; lia). reflexivity.
+    + cbn [andb]. destruct (char_invalid c Hc Ev Hne) as [->|En]; [reflexivity|].
+      rewrite En. rewrite orb_true_r. reflexivity.
+Qed.
+
+Lemma scan_dead_pos : forall s d, 0 < d ->
+  scan_spec s d = if forallb (fun c => c =? 61) s then Some (d + N.of_nat (length s)) else None.
+Proof.
+  induction s as [|c r IH]; intros d Hd.
+  - cbn [scan_spec forallb length N.of_nat]. rewrite N.add_0_r. reflexivity.
+  - cbn [scan_spec forallb length]. destruct (N.eqb_spec c 61) as [->|Hne].
+    + rewrite IH by lia. cbn [andb]. destruct (forallb _ r); [|reflexivity].
+      rewrite Nat2N.inj_succ. f_equal. lia.
+    + replace (d =? 0) with false by (symmetry; apply N.eqb_neq; lia). rewrite andb_false_r. reflexivity.
+Qed.
+
+Lemma scan_wf : forall s, wf_tail s = true <-> exists k, scan_spec s 0 = Some k /\ k <= 2.
+Proof.
+  induction s as [|c r IH].
+  - cbn. split; [intros _; exists 0; split; [reflexivity|lia] | reflexivity].
+  - cbn [wf_tail scan_spec]. unfold pad_char. destruct (N.eqb_spec c 61) as [->|Hne].
+    + rewrite scan_dead_pos by lia.
+      destruct r as [|d [|e r']].
+      * cbn. split; [intros _; exists 1; split; [reflexivity|lia] | reflexivity].
+      * cbn [forallb length N.of_nat]. rewrite andb_true_r. destruct (d =? 61).
+        -- split; [intros _; exists 2; split; [reflexivity|lia] | reflexivity].
+        -- split; [discriminate | intros (k & H & _); discriminate].
+      * split; [discriminate|]. intros (k & H & Hk). destruct (forallb _ _); [|discriminate].
+        assert (k = 0 + 1 + N.of_nat (length (d :: e :: r'))) as -> by congruence.
+        cbn [length] in Hk. rewrite !Nat2N.inj_succ in Hk. lia.
+    + cbn [N.eqb]. rewrite andb_true_r. destruct (is_b64char c); cbn [andb]; [exact IH|].
+      split; [discriminate | intros (k & H & _); discriminate].
+Qed.
+
+(* ---- wf_tail, Prop form ---- *)
+Lemma find_idx_In c l : (exists p, find_idx c l = Some p) <-> In c l.
+Proof.
+  induction l as [|x r IH]; cbn [find_idx In].
+  - split; [intros [p H]; discriminate | intros []].
+  - destruct (N.eqb_spec x c) as [->|Hne].
+    + split; [intros _; left; reflexivity | intros _; eexists; reflexivity].
+    + split.
+      * intros [p H]. right. apply IH. destruct (find_idx c r); [eexists; reflexivity | discriminate].
+      * intros [H|H]; [congruence|]. apply IH in H. destruct H as [p H]. rewrite H. eexists; reflexivity.
+Qed.
+
+Lemma is_b64char_In c : is_b64char c = true <-> In c rfc4648_alphabet.
+Proof.
+  unfold is_b64char, b64_index. rewrite <- find_idx_In.
+  destruct (find_idx c rfc4648_alphabet); cbn [option_map]; split; intros H;
+    try reflexivity; try discriminate; eauto. destruct H; discriminate.
+Qed.
+
+Lemma wf_tail_body_pad body pad :
+  Forall (fun c => In c rfc4648_alphabet) body ->
+  (pad = [] \/ pad = [pad_char] \/ pad = [pad_char; pad_char]) -> wf_tail (body ++ pad) = true.
+Proof.
+  intros Hb Hp. induction Hb as [|c r Hc Hr IH].
+  - destruct Hp as [->|[->| ->]]; reflexivity.
+  - cbn [app wf_tail]. apply is_b64char_In in Hc.
+    destruct (N.eqb_spec c pad_char) as [->|_]; [discriminate Hc|]. rewrite Hc, IH. reflexivity.
+Qed.
+
+Lemma wf_tail_split s : wf_tail s = true ->
+  exists body pad, s = body ++ pad /\ Forall (fun c => In c rfc4648_alphabet) body /\
+                   (pad = [] \/ pad = [pad_char] \/ pad = [pad_char; pad_char]).
+Proof.
+  induction s as [|c r IH]; intros H.
+  - exists [], []. repeat split; auto.
+  - cbn [wf_tail] in H. destruct (N.eqb_spec c pad_char) as [->|Hne].
+    + destruct r as [|d [|? ?]]; try discriminate.
+      * exists [], [pad_char]. repeat split; auto.
+      * apply N.eqb_eq in H. subst. exists [], [pad_char; pad_char]. repeat split; auto.
+    + apply andb_true_iff in H. destruct H as [Hc Hr]. destruct (IH Hr) as (body & pad & -> & Hb & Hp).
+      exists (c :: body), pad. repeat split; auto. constructor; [apply is_b64char_In, Hc | exact Hb].
+Qed.
+
+Theorem wf_b64b_spec s : wf_b64b s = true <-> wf_b64 s.
+Proof.
+  unfold wf_b64b, wf_b64. rewrite andb_true_iff, Nat.eqb_eq. split.
+  - intros [Hl Ht]. destruct (wf_tail_split s Ht) as (body & pad & E & Hb & Hp).
+    exists body, pad. auto.
+  - intros (body & pad & -> & Hl & Hb & Hp). split; [exact Hl | apply wf_tail_body_pad; assumption].
 Qed.
